@@ -92,8 +92,11 @@ class Facts:
         self.adts = {}
         self.consts = {}
         self.hir = {}
-        for p in paths:
-            d = _load_facts(p)
+        loaded = [_load_facts(p) for p in paths]
+        from . import inline as _inline
+        allfns = [fn for d in loaded for fn in d['fns']]
+        self.inlined = _inline.inline_unknown(allfns, _inline.load_known()) if os.environ.get('GV_NO_INLINE') != '1' else {}
+        for d in loaded:
             cn = d['crate']
             self.crates[cn] = d
             for a in d['adts']:
@@ -101,6 +104,8 @@ class Facts:
             for c in d['consts']:
                 self.consts[c['path']] = c
             for fn in d['fns']:
+                if fn.get('inlined_away'):
+                    continue
                 key = fn['path']
                 if key in self.fns:  # disambiguate duplicates (cfg'd twins, closures)
                     k = 2
@@ -797,6 +802,13 @@ def normalize_truth(e, truth):
                 e = ('bin', {'lt': 'Lt', 'le': 'Le', 'gt': 'Gt', 'ge': 'Ge'}[m.group(1)], e[2][0], e[2][1])
                 continue
         break
+    # `x.is_some()` / `x.is_none()` / `r.is_ok()` / `r.is_err()` are the same tests as matching on the variant:
+    # render both as the variant atom `x is Some` so that `if x.is_some() { x.unwrap() }` and `if let Some(v) = x` look alike
+    if e[0] == 'call' and len(e[2]) == 1:
+        sn = short(e[1])
+        pol = {'Option::is_some': ('Some', 'None'), 'Option::is_none': ('None', 'Some'), 'Result::is_ok': ('Ok', 'Err'), 'Result::is_err': ('Err', 'Ok')}.get(sn)
+        if pol:
+            return ('variant', e[2][0], frozenset([pol[0] if truth else pol[1]]), True)
     return ('truth', e, truth)
 
 
@@ -839,6 +851,68 @@ def show(e, depth=0):
     if k == 'phi':
         return 'phi(_%d)' % e[1]
     return str(e)
+
+
+def map_expr(e, fn):
+    """Bottom-up rewrite of an expression tree: fn(node) -> node."""
+    k = e[0]
+    if k == 'call':
+        e = (e[0], e[1], tuple(map_expr(a, fn) for a in e[2])) + tuple(e[3:])
+    elif k == 'bin':
+        e = (e[0], e[1], map_expr(e[2], fn), map_expr(e[3], fn)) + tuple(e[4:])
+    elif k == 'un':
+        e = (e[0], e[1], map_expr(e[2], fn)) + tuple(e[3:])
+    elif k in ('discr', 'cast', 'repeat', 'proj'):
+        e = (e[0], map_expr(e[1], fn)) + tuple(e[2:])
+    elif k == 'agg':
+        e = (e[0], e[1], e[2], tuple((f, map_expr(v, fn)) for f, v in e[3])) + tuple(e[4:])
+    elif k == 'eq':
+        e = (e[0], map_expr(e[1], fn), map_expr(e[2], fn)) + tuple(e[3:])
+    elif k == 'cmp':
+        e = (e[0], e[1], map_expr(e[2], fn), map_expr(e[3], fn)) + tuple(e[4:])
+    return fn(e)
+
+
+_UNWRAPS = {'Option::unwrap': '@Some', 'Option::expect': '@Some', 'Result::unwrap': '@Ok', 'Result::expect': '@Ok', 'Result::unwrap_err': '@Err'}
+
+
+def _unwrap_to_proj(e):
+    if e[0] == 'call' and e[2] and short(e[1]) in _UNWRAPS:
+        base = e[2][0]
+        pj = (_UNWRAPS[short(e[1])], '.0')
+        if base[0] == 'var':
+            return ('var', base[1], tuple(base[2]) + pj)
+        if base[0] == 'proj':
+            return ('proj', base[1], tuple(base[2]) + pj)
+        return ('proj', base, pj)
+    return e
+
+
+def _proj_to_unwrap(e):
+    if e[0] in ('var', 'proj') and len(e[2]) >= 2:
+        pj = list(e[2])
+        for i in range(len(pj) - 1):
+            if pj[i] in ('@Some', '@Ok') and pj[i + 1] == '.0':
+                head = (e[0], e[1], tuple(pj[:i])) if pj[:i] or e[0] == 'var' else e[1]
+                call = ('call', 'std::option::Option::unwrap' if pj[i] == '@Some' else 'std::result::Result::unwrap', (head,), -1)
+                rest = tuple(pj[i + 2:])
+                return _proj_to_unwrap(('proj', call, rest)) if rest else call
+    return e
+
+
+def atom_renderings(a):
+    """All equivalent renderings of a guard atom: as written, with `x.unwrap()` spelled as the variant payload
+    `x@Some.0` (what `if let Some(v) = x` / `let .. else` produce), and the other way round."""
+    out = [show_atom(a)]
+    for fn in (_unwrap_to_proj, _proj_to_unwrap):
+        try:
+            b = (a[0], map_expr(a[1], fn)) + tuple(a[2:])
+            s = show_atom(b)
+            if s not in out:
+                out.append(s)
+        except Exception:
+            pass
+    return out
 
 
 def show_atom(a):
